@@ -94,9 +94,9 @@ pub fn check_mask(v: &Visit, mask: u64, abort_at: Option<usize>) -> CaseResult {
 
 pub fn run(ctx: &Ctx) -> Report {
     let mut rep = Report::new(ctx);
-    rep.rule = "Boards at the end of generated histories x 6 masks each (random, sparse, dense, empty, full, single square, own pieces, one piece kind, complement, king only, all but king, random subset of own) x an abort point (listener returns true at call k+1, k in 0..=20, or never). Without abort: multiset of moves == reference legal moves with origin in the mask, every batch non-empty, <= 18 batches, returns false; generate_moves == generate_moves_for(FULL). With abort: exactly min(k+1, total) calls, returns true iff the (k+1)-th call happened, batches seen are a prefix of the no-abort sequence. Non-trivial = mask selects some but not all movable pieces, or an abort actually fired; distinct by (FEN, mask, abort) hash.".into();
+    rep.rule = "Boards at the start and at the end of generated histories (incl. a 'crowded' motif: sixteen mobile men, both castling rights and two en-passant capturers, where the batch count reaches its maximum of 18) x 6 masks each (random, sparse, dense, empty, full, single square, own pieces, one piece kind, complement, king only, all but king, random subset of own) x an abort point (listener returns true at call k+1, k in 0..=20, or never). Without abort: multiset of moves == reference legal moves with origin in the mask, every batch non-empty, <= 18 batches, returns false; generate_moves == generate_moves_for(FULL). With abort: exactly min(k+1, total) calls, returns true iff the (k+1)-th call happened, batches seen are a prefix of the no-abort sequence. Non-trivial = mask selects some but not all movable pieces, or an abort actually fired; distinct by (FEN, mask, abort) hash.".into();
     rep.assumptions = vec!["reference legal moves".into()];
-    rep.required_classes = vec!["mask-partial", "abort-fired", "abort-after-last", "mask-excludes-king", "mask-king-only", "ep-capture-legal", "abort-fired-at-last-batch"];
+    rep.required_classes = vec!["mask-partial", "abort-fired", "abort-after-last", "mask-excludes-king", "mask-king-only", "ep-capture-legal", "abort-fired-at-last-batch", "batches>=17", "batches=18"];
     let cases = ctx.tier.scale(120_000, 25);
     rep.add(run_prop(
         ctx,
@@ -111,13 +111,22 @@ pub fn run(ctx: &Ctx) -> Report {
                 st.count("rejected-by-library", 1);
                 return Ok(());
             };
-            // only the last position of the history is examined
+            // the first and the last position of the history are examined
+            let mut first: Option<Board> = None;
             let mut last: Option<(Board, Vec<String>)> = None;
             let _ = walk::<()>(board, &mc.case.ops, |b, _p, _s, h| {
+                if first.is_none() {
+                    first = Some(b.clone());
+                }
                 last = Some((b.clone(), h.to_vec()));
                 Ok(())
             });
-            let (b, hist) = last.unwrap();
+            let (lb, lhist) = last.unwrap();
+            let mut todo: Vec<(Board, Vec<String>)> = vec![(first.unwrap(), Vec::new())];
+            if !lhist.is_empty() {
+                todo.push((lb, lhist));
+            }
+            for (b, hist) in todo {
             let pos = pos_of_board(&b);
             if !well_formed(&b, &pos) {
                 return Ok(());
@@ -134,9 +143,8 @@ pub fn run(ctx: &Ctx) -> Report {
                 });
                 n
             };
-            st.count("batches-max", 0);
-            let e = st.counters.entry("max-batches-seen".into()).or_insert(0);
-            *e = (*e).max(total_batches as u64);
+            st.class(&format!("batches={:02}", total_batches));
+            st.class_if(total_batches >= 17, "batches>=17");
             for (i, &(kind, raw)) in mc.masks.iter().enumerate() {
                 let (mask, name) = concrete_mask(&b, kind, raw);
                 let abort_at = if mc.abort_at[i] > 20 { None } else { Some(mc.abort_at[i] as usize) };
@@ -165,6 +173,7 @@ pub fn run(ctx: &Ctx) -> Report {
                 }
                 st.sample(|| format!("{} mask={:#018x} ({}) abort_at={:?}", v.describe(), mask, name, abort_at));
                 check_mask(&v, mask, abort_at)?;
+            }
             }
             Ok(())
         },
